@@ -13,7 +13,7 @@ from ropt.config.enopt import (EnOptConfig, GradientConfig, LinearConstraintsCon
 from ropt.transforms import OptModelTransforms, VariableScaler
 from ropt.enums import PerturbationType
 
-from ..core import PropertyCheck, nums
+from ..core import PropertyCheck, num, nums
 
 INF = float("inf")
 P = 3
@@ -55,7 +55,8 @@ def raw_config(sc):
     if sc["rms"] >= 0:
         real["realization_min_success"] = sc["rms"]
     cfg = {"variables": var, "gradient": grad, "realizations": real,
-           "objectives": {"weights": {"one": [1.0], "big": [4.0], "pair": [1.0, 3.0], "zero": [0.0, 0.0], "mixed": [3.0, -1.0]}[sc["owp"]]}}
+           "objectives": {"weights": {"one": [1.0], "big": [4.0], "pair": [1.0, 3.0], "zero": [0.0, 0.0], "mixed": [3.0, -1.0],
+                                      "near": [0.5, 0.5 + 2.0 ** -17]}[sc["owp"]]}}
     # the optimizer section, with the method spelled bare or qualified (frozen like every other section)
     cfg["optimizer"] = {"method": "slsqp" if (V + R) % 2 else "SciPy/SLSQP", "max_iterations": 7}
     if V >= 2 and sc["magn"] != "badlen" and sc["mask"] != "badlen":
@@ -78,7 +79,7 @@ def raw_config(sc):
 
 
 def project(c: EnOptConfig):
-    return {"accepted": True, "rw": nums(c.realizations.weights), "ow": nums(c.objectives.weights),
+    return {"accepted": True, "rw": nums(c.realizations.weights), "ow": nums(c.objectives.weights), "owsum": num(float(np.sum(c.objectives.weights))),
             "rms": int(c.realizations.realization_min_success), "pms": int(c.gradient.perturbation_min_success),
             "lb": nums(c.variables.lower_bounds), "ub": nums(c.variables.upper_bounds),
             "mask": [] if c.variables.mask is None else [bool(b) for b in c.variables.mask],
@@ -90,7 +91,7 @@ def project(c: EnOptConfig):
                                                                if c.nonlinear_constraints.lower_bounds.size == c.nonlinear_constraints.upper_bounds.size else -1)}
 
 
-EMPTY = {"accepted": False, "rw": [], "ow": [], "rms": 0, "pms": 0, "lb": [], "ub": [], "mask": [], "magn": [], "nlin": 0, "nnl": 0}
+EMPTY = {"accepted": False, "rw": [], "ow": [], "owsum": num(None), "rms": 0, "pms": 0, "lb": [], "ub": [], "mask": [], "magn": [], "nlin": 0, "nnl": 0}
 
 
 PARTS = {"variables": VariablesConfig, "gradient": GradientConfig, "linear_constraints": LinearConstraintsConfig,
